@@ -3,6 +3,7 @@ current state.dot) with background threads, sleeps, the reactor and the I/O of
 the state bodies replaced by fakes the harness schedule drives."""
 import atexit
 import os
+import threading
 import shutil
 import tempfile
 from pathlib import Path
@@ -29,6 +30,10 @@ import twisted.web.server
 from vp.shims.reactor import NS, FakeReactor
 
 
+class _Kill(BaseException):
+    """unwinds a parked poller thread when its world is reset"""
+
+
 class Block(Exception):
     """a poller called sleep(): its condition does not hold yet"""
 
@@ -38,6 +43,24 @@ class Job:
         self.fn, self.args = fn, args
         self.cbs = []  # (callback, errback)
         self.name = getattr(fn, '__name__', str(fn))
+        # a poller runs in a thread of its own that is parked inside its sleep() between two
+        # completion attempts, so what it keeps in locals survives (strict hand-off: never concurrent)
+        self.thread = None
+        self.parked = threading.Semaphore(0)  # poller -> harness: "I sleep" / "I returned"
+        self.resume = threading.Semaphore(0)  # harness -> poller: "look again"
+        self.finished = False
+        self.kill = False
+        self.result = self.failure = None
+
+    def _run(self):
+        try:
+            self.result = self.fn(*self.args)
+        except _Kill:
+            pass
+        except Exception as e:  # pylint: disable=broad-except
+            self.failure = e
+        self.finished = True
+        self.parked.release()
 
     def addCallbacks(self, cb, eb=None):
         self.cbs.append((cb, eb))
@@ -57,21 +80,54 @@ class Threads:
         self.pending = []
         self.errors = []
 
+    def abandon(self):
+        """end of a history: parked pollers are unwound"""
+        for j in self.pending:
+            if j.thread is not None and not j.finished:
+                j.kill = True
+                j.resume.release()
+                j.thread.join(2)
+        del self.pending[:]
+
     def deferToThread(self, fn, *args):
         j = Job(fn, args)
         self.pending.append(j)
+        if j.name.startswith('is_'):
+            # a poller starts looking at once (its thread is started by deferToThread) and runs up to its first sleep
+            self._start(j)
+            if j.finished:
+                # its condition held at once: it will be looked at afresh (and its continuation run in the same
+                # reactor turn) when the schedule completes it - leaving the loop and the continuation stay atomic
+                j.thread, j.finished, j.result, j.failure = None, False, None, None
         return j
+
+    @staticmethod
+    def _start(j):
+        j.thread = threading.Thread(target=j._run, daemon=True)
+        j.thread.job = j
+        j.thread.start()
+        j.parked.acquire()
 
     def complete(self, j):
         """run one background job to completion and then its callback chain (as
         the reactor would); a poller that would sleep stays pending"""
-        try:
-            result = j.fn(*j.args)
-            failure = None
-        except Block:
-            return False
-        except Exception as e:  # pylint: disable=broad-except
-            result, failure = None, e
+        if j.name.startswith('is_'):
+            if j.thread is None:
+                self._start(j)
+            else:
+                j.resume.release()
+                j.parked.acquire()
+            if not j.finished:
+                return False
+            result, failure = j.result, j.failure
+        else:
+            try:
+                result = j.fn(*j.args)
+                failure = None
+            except Block:
+                return False
+            except Exception as e:  # pylint: disable=broad-except
+                result, failure = None, e
         self.pending.remove(j)
         for cb, eb in j.cbs:
             try:
@@ -212,11 +268,17 @@ class World:
         return frozenset(lv)
 
     def _sleep(self, _s):
-        raise Block()
+        j = getattr(threading.current_thread(), 'job', None)
+        if j is None:
+            raise Block()
+        j.parked.release()
+        j.resume.acquire()
+        if j.kill:
+            raise _Kill()
 
     # ------------------------------------------------------------------ reset --
     def reset(self):
-        del self.threads.pending[:]
+        self.threads.abandon()
         del self.threads.errors[:]
         self.reactor.reset()
         del self.calls[:]
@@ -256,11 +318,14 @@ class World:
         self.level = frozenset(level)
         del farm._busy[:]
         farm._time.clear()
-        schedule.que = []
-        if 'q' in self.level or 'd' in self.level:
-            node = FakeNode('ta.a', 'd' in self.level)
-            if 'q' in self.level:
-                schedule.que = [node]
+        # as in the real scheduler: work is added by organize(), which binds a NEW sorted list to
+        # schedule.que; work goes away through complete()/purge(), which remove from the list in place
+        # (organize() also runs while the queue is non-empty - a finished unit reports new values -
+        # and then leaves the old list object behind, untouched: modelled whenever the flags change with q on)
+        if 'q' in self.level:
+            schedule.que = sorted([FakeNode('ta.a', 'd' in self.level)], key=lambda n: n.tag)
+        else:
+            del schedule.que[:]
         # view_doing() looks at the queue: "executing" needs the running node in it
         if 'd' in self.level and 'q' not in self.level:
             self.level = self.level - {'d'}
